@@ -25,6 +25,7 @@
 #ifndef PHQ_ANGLE_HPP
 #define PHQ_ANGLE_HPP
 
+#include <algorithm>
 #include <cmath>
 #include <cstddef>
 #include <functional>
@@ -140,12 +141,16 @@ public:
   /// vectors.
   Angle(const PlanarVector<NumericType>& planar_vector_1,
         const PlanarVector<NumericType>& planar_vector_2)
-    : Angle(std::acos(planar_vector_1.Dot(planar_vector_2)
-                      / (planar_vector_1.Magnitude() * planar_vector_2.Magnitude()))) {}
+    : Angle(std::acos(std::clamp(
+        planar_vector_1.Dot(planar_vector_2)
+            / (planar_vector_1.Magnitude() * planar_vector_2.Magnitude()),
+        static_cast<NumericType>(-1), static_cast<NumericType>(1)))) {}
 
   /// \brief Constructor. Constructs an angle by computing the angle between two given vectors.
   Angle(const Vector<NumericType>& vector1, const Vector<NumericType>& vector2)
-    : Angle(std::acos(vector1.Dot(vector2) / (vector1.Magnitude() * vector2.Magnitude()))) {}
+    : Angle(std::acos(std::clamp(
+        vector1.Dot(vector2) / (vector1.Magnitude() * vector2.Magnitude()),
+        static_cast<NumericType>(-1), static_cast<NumericType>(1)))) {}
 
   /// \brief Constructor. Constructs an angle by computing the angle between a given planar vector
   /// and planar direction.
